@@ -177,6 +177,15 @@ def run_impl(lines, binary=None, timeout=1800, nproc=4):
                 # record [3 0 128+signal] as its whole trace and the remaining cases go to a fresh process
                 sig = -p.returncode if p.returncode < 0 else p.returncode
                 rows.append([3, 0, 128 + (sig % 128)])
+                # keep what the process said for the diagnosis (the crash record itself is what the checks judge)
+                try:
+                    q = subprocess.run([binary], input=todo[len(got)] + "\n", stdout=subprocess.PIPE, stderr=subprocess.PIPE, text=True, timeout=120,
+                                       env=dict(ENV, HARNESS_VERBOSE="1"))
+                    with open(os.path.join(WORK, "crashes.log"), "a") as f:
+                        f.write("exit %s in a batch; case: %s\nstderr of the batch: %s\nre-run alone: exit %s, stderr: %s\n\n" % (
+                            p.returncode, todo[len(got)][:300], p.stderr[-1500:], q.returncode, q.stderr[-1500:]))
+                except Exception:
+                    pass
                 todo = todo[len(got) + 1:]
             else: break
         if len(rows) != len(shards[k]):
